@@ -77,18 +77,20 @@ def cases(tier, rng):
         n = 2**k
         for f in "bx":
             w = 1 if f == "b" else 3
-            # unit vectors: a spanning set
+            # unit vectors: a spanning set (all of it for n <= 32, for the extension field in each coefficient)
             if n <= 32:
                 pos = list(range(n))
-            else:
+            elif k <= 8:
                 pos = sorted({0, 1, 2, n // 2 - 1, n // 2, n // 2 + 1, n - 2, n - 1, rng.randrange(n), rng.randrange(n)})
-            if k > 12:
-                pos = sorted({0, 1, n // 2, n - 1, rng.randrange(n)})
-            for i in pos:
+            else:
+                pos = sorted({1, n // 2 + 1, n - 1, rng.randrange(n)})
+            for pi, i in enumerate(pos):
                 if f == "b":
                     coeffs = ["1"] + (["%d" % rng.choice(GRID[2:])] if n <= 64 else [])
                 else:
-                    coeffs = ["1 0 0", "0 1 0", "0 0 1"] if k <= 12 else ["1 0 0", "0 0 1"]
+                    coeffs = ["1 0 0", "0 1 0", "0 0 1"]
+                    if k > 8:
+                        coeffs = [coeffs[(pi + k) % 3]]
                     if n <= 64:
                         coeffs.append("%d %d %d" % (rng.choice(GRID), rng.choice(GRID), rng.choice(GRID)))
                 for c in coeffs:
@@ -98,15 +100,19 @@ def cases(tier, rng):
                         out.append(("unit", "%s %s unit %d %d %s" % (op, f, n, i, c)))
             # all-ones and other constants
             consts = ["1", "%d" % (P - 1)] if f == "b" else ["1 1 1", "%d 0 1" % (P - 1)]
+            if k > 8:
+                consts = consts[:1]
             for c in consts:
                 for op in tops:
                     out.append(("const", "%s %s const %d %s" % (op, f, n, c)))
             # boundary-valued and random vectors
-            reps = 3 if k <= 8 else (2 if k <= 12 else 1)
-            for _ in range(reps):
-                for kind in ("grid", "lcg"):
+            reps = 3 if k <= 8 else 1
+            for rep in range(reps):
+                for ki, kind in enumerate(("grid", "lcg")):
                     seed = rng.randrange(2**64)
-                    for op in tops:
+                    for oi, op in enumerate(tops):
+                        if k > 8 and (oi + ki + k) % 2 == 1:
+                            continue
                         if k <= 6:
                             # explicit values for small sizes (exercises the `v` syntax, values >= p included)
                             if kind == "grid":
